@@ -75,6 +75,12 @@ pub fn clock_jump(secs: u32) -> bool {
     true
 }
 
+/// the text a spoofed header carries on the wire: "{KEYID}" stands for the id of the key latched in this case
+pub fn wire_value(case: &Case, s: &Spoof) -> String {
+    let id = case.key.as_ref().map(|(g, _)| g.clone()).unwrap_or_else(|| "11111111-2222-3333-4444-555555555555".to_string());
+    s.value.replace("{KEYID}", &id)
+}
+
 fn spoof() -> impl Strategy<Value = Spoof> {
     let claims_v = prop_oneof![
         Just("{ \"isRoot\": \"true\"}".to_string()),
@@ -85,6 +91,10 @@ fn spoof() -> impl Strategy<Value = Spoof> {
     let date_v = prop_oneof![Just("Mon, 01 Jan 2001 00:00:00 GMT".to_string()), Just("Fri, 31 Dec 2100 23:59:59 GMT".to_string()), Just("yesterday".to_string())];
     let auth_v = prop_oneof![
         any::<[u8; 32]>().prop_map(|m| format!("Azure-HMAC-SHA256 11111111-2222-3333-4444-555555555555 {}", hmacsha::hex_lower(&m))),
+        // a forged value that names the key that is latched NOW (the key id is no secret: every signed request shows it);
+        // "{KEYID}" is filled in per case by wire_value()
+        any::<[u8; 32]>().prop_map(|m| format!("Azure-HMAC-SHA256 {{KEYID}} {}", hmacsha::hex_lower(&m))),
+        any::<[u8; 32]>().prop_map(|m| format!("Azure-HMAC-SHA256 {{KEYID}} {} trailing", hmacsha::hex_lower(&m))),
         Just("value".to_string()),
         Just("Azure-HMAC-SHA256".to_string())
     ];
@@ -150,7 +160,7 @@ pub fn strategy(spoof_range: std::ops::Range<usize>, key_prob: f64) -> impl Stra
         })
 }
 
-pub const RULE_C05: &str = "generator: 15% of the non-elevated records carry an elevation field other than 0 (-1, -22, i32::MIN, 2, 256, i32::MAX: only 1 means elevated); in 12% of the cases the request is sent again on a keep-alive connection right after the host has closed its side following an earlier response (nothing relayed, or relayed with exactly the proxy's headers); one case in six also carries a client Connection header that nominates proxy-owned names as hop-by-hop fields (one list, any letter case, with or without keep-alive); a quarter of the POST/PUT/PATCH requests are sent chunked with a Trailer announcement and a trailer section carrying client-chosen claims and date fields (they must not reach the host in any part of the message); in 20% of the cases the wall clock of the worker process is moved forward (1 s .. 31 days; 59/60/61 s, hours and days included) between a first request and the request under test, through a preloaded clock_gettime shim that shifts CLOCK_REALTIME for harness and agent alike, and once more between two requests on one keep-alive connection; attributed, authorised requests (IMDS from root and non-root callers with the elevation flag following the uid or set independently; WireServer/HostGAPlugin from elevated callers; another destination) with no rule sets, a key latched in 70% of the cases, carrying 0-3 client-supplied copies of x-ms-azure-host-claims / -date / -authorization in random letter case, at random positions among the other headers, with values {the opposite or same elevation claim in two spellings, an old and a future RFC 1123 date, a well-formed authorization value with a random MAC, junk}. oracle on the raw bytes captured at the mock host: exactly one claims line whose value states the record's elevation; exactly one date line, RFC 1123, within 5 s of the harness clock; if a key is latched and the request is not signature-exempt exactly one authorization line, none of the client's values, and its MAC verifies (C04). non-trivial: at least one spoofed copy or a nominating Connection header; distinct by hash of the case.";
+pub const RULE_C05: &str = "generator: 15% of the non-elevated records carry an elevation field other than 0 (-1, -22, i32::MIN, 2, 256, i32::MAX: only 1 means elevated); in 12% of the cases the request is sent again on a keep-alive connection right after the host has closed its side following an earlier response (nothing relayed, or relayed with exactly the proxy's headers); one case in six also carries a client Connection header that nominates proxy-owned names as hop-by-hop fields (one list, any letter case, with or without keep-alive); a quarter of the POST/PUT/PATCH requests are sent chunked with a Trailer announcement and a trailer section carrying client-chosen claims and date fields (they must not reach the host in any part of the message); in 20% of the cases the wall clock of the worker process is moved forward (1 s .. 31 days; 59/60/61 s, hours and days included) between a first request and the request under test, through a preloaded clock_gettime shim that shifts CLOCK_REALTIME for harness and agent alike, and once more between two requests on one keep-alive connection; attributed, authorised requests (IMDS from root and non-root callers with the elevation flag following the uid or set independently; WireServer/HostGAPlugin from elevated callers; another destination) with no rule sets, a key latched in 70% of the cases, carrying 0-3 client-supplied copies of x-ms-azure-host-claims / -date / -authorization in random letter case, at random positions among the other headers, with values {the opposite or same elevation claim in two spellings, an old and a future RFC 1123 date, a well-formed authorization value with a random MAC naming an unknown key id or the id of the key latched now (with or without a fourth token), junk}. oracle on the raw bytes captured at the mock host: exactly one claims line whose value states the record's elevation; exactly one date line, RFC 1123, within 5 s of the harness clock; if a key is latched and the request is not signature-exempt exactly one authorization line, none of the client's values, and its MAC verifies (C04). non-trivial: at least one spoofed copy or a nominating Connection header; distinct by hash of the case.";
 pub const RULE_C04: &str = "end-to-end half (4% of the cases: the second half of the request body arrives 0.3-2.3 s after the first): the same rig with a key always latched and no spoofed headers; query strings from C04's colliding pools, header sets, bodies as Content-Length or chunked. oracle: the mock's raw bytes are parsed by the independent HTTP reader; exactly one authorization line 'Azure-HMAC-SHA256 <guid> <64 hex>'; HMAC_ref(key, canon_ref(received method, de-framed body, received header lines, received target)) equals it for one of the two admissible parameter orders (a transport-generated 'content-length: 0' on a body-less request may be in or out: counted as underspecified). 10% of the requests carry no Host header and 10% are HTTP/1.0 without one (hyper's server accepts both). In 20% of the cases the request is then sent twice on one keep-alive connection with the latched key replaced in between: the second one must announce and verify under the new key. Exempt uploads (PUT /vmAgentLog, POST /machine/?comp=telemetrydata, any letter case) must carry no proxy signature. non-trivial: >= 2 parameters or an escaped/valueless one, or >= 2 client headers, or a body with a line feed; distinct by hash of the case.";
 
 fn days_from_civil(y: i64, m: i64, d: i64) -> i64 {
@@ -271,8 +281,9 @@ fn check_proxy_headers(case: &Case, r: &Recorded, exempt: bool, t_send: i64, t_r
     if case.key.is_some() && !exempt {
         let (g, k) = case.key.as_ref().unwrap();
         for s in case.spoofs.iter().filter(|s| s.which % 3 == 2) {
-            if auth.iter().any(|a| *a == s.value.as_bytes()) {
-                return fail2("headers:client-authorization-reached-host-on-signed-request", format!("client value '{}' among {:?}", s.value, auth.iter().map(|v| String::from_utf8_lossy(v).to_string()).collect::<Vec<_>>()));
+            let sv = wire_value(case, s);
+            if auth.iter().any(|a| *a == sv.as_bytes()) {
+                return fail2("headers:client-authorization-reached-host-on-signed-request", format!("client value '{}' among {:?}", sv, auth.iter().map(|v| String::from_utf8_lossy(v).to_string()).collect::<Vec<_>>()));
             }
         }
         let client_framing = !(case.req.body.is_empty() && case.req.bare_empty);
@@ -288,7 +299,7 @@ fn check_proxy_headers(case: &Case, r: &Recorded, exempt: bool, t_send: i64, t_r
     } else if exempt && case.key.is_some() {
         // exempt uploads must not be (mis-)signed by the proxy: any authorization line must be the client's own
         for a in &auth {
-            if !case.spoofs.iter().any(|s| s.which % 3 == 2 && s.value.as_bytes() == *a) {
+            if !case.spoofs.iter().any(|s| s.which % 3 == 2 && wire_value(case, s).as_bytes() == *a) {
                 return fail2("signing:exempt-request-carries-proxy-authorization", String::from_utf8_lossy(a).to_string());
             }
         }
@@ -309,7 +320,7 @@ pub fn eval(rig: &Rig, case: &Case, stats: &mut Stats, c04_focus: bool) -> Outco
     for (i, s) in case.spoofs.iter().enumerate() {
         let name = flip_case([CLAIMS, DATE, AUTHZ][s.which as usize % 3], s.name_mask);
         let pos = crate::runner::pick(case.positions[i % case.positions.len()], req.headers.len() + 1);
-        req.headers.insert(pos, (name, s.value.clone()));
+        req.headers.insert(pos, (name, wire_value(case, s)));
     }
     if case.conn_nominate & 7 != 0 {
         // the client declares proxy-owned names hop-by-hop: the host must still get exactly one of each, stamped by the proxy
